@@ -19,25 +19,25 @@ NCPU = os.cpu_count() or 4
 
 # per property: package dir, race build, shards per tier, overall timeout (s) per tier
 PROPS = {
-    "C01": dict(pkg="c01", quick_scale=20, thorough_scale=8, shards=(8, 16), timeout=(300, 3600)),
+    "C01": dict(pkg="c01", hang=180, quick_scale=20, thorough_scale=8, shards=(8, 16), timeout=(300, 3600)),
     "C07": dict(pkg="c07", shards=(6, 12), timeout=(600, 5400), fuzz=[("FuzzBoc", 300, 6)]),
-    "C02": dict(pkg="c02", quick_scale=24, thorough_scale=10, shards=(8, 16), timeout=(300, 3600)),
-    "C03": dict(pkg="c03", quick_scale=20, thorough_scale=5, shards=(8, 16), timeout=(600, 3600), typereg=True),
+    "C02": dict(pkg="c02", hang=180, quick_scale=24, thorough_scale=10, shards=(8, 16), timeout=(300, 3600)),
+    "C03": dict(pkg="c03", hang=180, quick_scale=20, thorough_scale=5, shards=(8, 16), timeout=(600, 3600), typereg=True),
     "C09": dict(pkg="c09", shards=(2, 8), timeout=(900, 5400)),
     "C10": dict(pkg="c10", shards=(2, 8), timeout=(600, 3600)),
     "C11": dict(pkg="c11", shards=(4, 16), timeout=(600, 3600)),
     "C12": dict(pkg="c12", race=True, shards=(3, 8), timeout=(900, 5400)),
     "C13": dict(pkg="c13", race=True, shards=(4, 16), timeout=(600, 5400)),
-    "C14": dict(pkg="c14", shards=(4, 16), timeout=(600, 3600)),
+    "C14": dict(pkg="c14", hang=180, shards=(4, 16), timeout=(600, 3600)),
     "C15": dict(pkg="c15", quick_scale=2, shards=(4, 16), timeout=(600, 3600)),
-    "C16": dict(pkg="c16", quick_scale=30, thorough_scale=8, shards=(8, 16), timeout=(600, 3600)),
-    "C17": dict(pkg="c17", quick_scale=24, thorough_scale=4, shards=(8, 16), timeout=(300, 3600)),
-    "C18": dict(pkg="c18", quick_scale=60, thorough_scale=8, shards=(8, 16), timeout=(600, 3600)),
-    "C19": dict(pkg="c19", quick_scale=2, shards=(2, 8), timeout=(600, 3600)),
+    "C16": dict(pkg="c16", hang=180, quick_scale=30, thorough_scale=8, shards=(8, 16), timeout=(600, 3600)),
+    "C17": dict(pkg="c17", hang=180, quick_scale=24, thorough_scale=4, shards=(8, 16), timeout=(300, 3600)),
+    "C18": dict(pkg="c18", hang=180, quick_scale=60, thorough_scale=8, shards=(8, 16), timeout=(600, 3600)),
+    "C19": dict(pkg="c19", hang=180, quick_scale=2, shards=(2, 8), timeout=(600, 3600)),
     "C20": dict(pkg="c20", quick_scale=40, thorough_scale=10, shards=(8, 16), timeout=(600, 3600), typereg=True),
     "C08": dict(pkg="c08", shards=(6, 12), timeout=(900, 5400), typereg=True, fuzz=[("FuzzTL", 180, 2), ("FuzzTLB", 180, 2)]),
-    "C04": dict(pkg="c04", quick_scale=45, thorough_scale=10, shards=(8, 16), timeout=(600, 3600), typereg=True),
-    "C05": dict(pkg="c05", quick_scale=40, thorough_scale=2, shards=(8, 16), timeout=(600, 3600)),
+    "C04": dict(pkg="c04", hang=180, quick_scale=45, thorough_scale=10, shards=(8, 16), timeout=(600, 3600), typereg=True),
+    "C05": dict(pkg="c05", hang=180, quick_scale=40, thorough_scale=2, shards=(8, 16), timeout=(600, 3600)),
     "C06": dict(pkg="c06", quick_scale=36, thorough_scale=5, shards=(8, 16), timeout=(300, 3600)),
 }
 
@@ -280,7 +280,7 @@ def main():
     regress = os.path.join(VERIF, "corpus", "regress", pid)
     for i in range(nsh):
         env = dict(base, VERIF_SHARD="%d/%d" % (i, nsh), VERIF_STATS=os.path.join(scratch, "stats-%d.json" % i),
-                   VERIF_JOURNAL=os.path.join(scratch, "journal-%d.json" % i))
+                   VERIF_JOURNAL=os.path.join(scratch, "journal-%d.json" % i), VERIF_DEFAULT_HANG=str(cfg.get("hang", 0)))
         if i == 0 and os.path.isdir(regress):
             env["VERIF_REGRESS_DIR"] = regress
         run = cfg.get("run", "^Test")
